@@ -159,7 +159,8 @@ def _sig_schema(sig, args):
     """one field Query.f(args): Int carrying the resolver"""
     return {"types": [{"kind": "object", "name": "Query", "interfaces": [], "default_resolver": None, "fields": [
         {"name": "f", "type": G.N("Int"), "depr": None, "resolver": sig,
-         "args": [{"name": a[0], "type": G.parse_type(a[1]), "default": a[2]} for a in args]}]}],
+         "args": [{"name": a[0], "type": G.parse_type(a[1]), "default": a[2], "pyname": (a[3] if len(a) > 3 else None)}
+                  for a in args]}]}],
         "directives": [], "query": "Query", "mutation": None, "subscription": None,
         "default_resolver": None, "via": "code"}
 
@@ -219,6 +220,13 @@ def corpus():
         ([["a", "VP", False], ["extra", "KO", False]], []),
         ([["root", "PK", False], ["a", "VP", False], ["k1", "KO", False], ["k2", "KO", False], ["k3", "KO", False]], []),
         (R3, []), (R3 + [["kw", "VK", False]], [["a", "Int", None]]),
+        # round j (C13-j): the python name, not the GraphQL name, is what must not collide with root/ctx/info
+        (R3, [["pageSize", "Int!", None, "info"]]), (R3, [["pageSize", "Int", None, "ctx"]]),
+        (R3 + [["kw", "VK", False]], [["pageSize", "Int!", None, "root"]]),
+        (R3 + [["page_size", "PK", False]], [["pageSize", "Int!", None, "page_size"]]),
+        (R3 + [["page_size", "PK", False]], [["info", "Int!", None, "page_size"]]),
+        (R3 + [["kw", "VK", False]], [["ctx", "Int", None, "context"]]),
+        (R3 + [["pageSize", "PK", False]], [["pageSize", "Int!", None, "page_size"]]),
     ]:
         out.append({"kind": "sig", "sig": sig, "args": args})
     # memo: resolver reassigned between validate() calls
@@ -549,8 +557,9 @@ def _SUBSCRIBER(root, ctx, info, **kw):
 
 
 def _call_shapes(args):
-    always = [a[0] for a in args if a[2] is not None or a[1].endswith("!")]
-    optional = [a[0] for a in args if a[0] not in always]
+    py = [(a[3] if len(a) > 3 and a[3] else a[0]) for a in args]     # the executor passes python names
+    always = [n for n, a in zip(py, args) if a[2] is not None or a[1].endswith("!")]
+    optional = [n for n in py if n not in always]
     for k in range(len(optional) + 1):
         for sub in itertools.combinations(optional, k):
             yield always + list(sub)
